@@ -125,6 +125,7 @@ class C13(Check):
                             continue
                         yield {'op': op, 'handler': h, 'down': DOWNSTREAM[idx % len(DOWNSTREAM)], 'ctx': 'group' if (idx // 7) % 2 else 'top',
                                'ngroups': 2 + idx % 2, 'n': n, 'F': F, 'perm_seed': idx}
+        self.box_done = 1
 
     def _random(self, rng, tier):
         k = 1500 if tier == 'quick' else 15000
@@ -273,6 +274,11 @@ class C13(Check):
             if dead.err is not None or not dead.done or dead.completions != 1 or dead.after_end:
                 return out.fail('dead-letter-completion', done=dead.done, completions=dead.completions, error=repr(dead.err), after_end=dead.after_end)
         return out
+
+    box_done = 0
+
+    def extra_evidence(self):
+        return {'shards_that_enumerated_their_part_of_the_box_completely': self.box_done}
 
     def shrink(self, case):
         F = case['F']
